@@ -34,5 +34,7 @@ for k, m in sorted(op_imports.items(), key=lambda kv: str(kv[0])):
         "jrel": vec(m.hasjrel), "jabs": vec(m.hasjabs), "const": vec(m.hasconst), "name": vec(m.hasname),
         "local": vec(m.haslocal), "free": vec(m.hasfree), "compare": vec(m.hascompare),
         "hasarg": vec(getattr(m, "hasarg", [])), "hasargset": 1 if getattr(m, "hasarg", None) else 0,
+        "frozen": {"jrel": vec(m.JREL_OPS), "jabs": vec(m.JABS_OPS), "const": vec(m.CONST_OPS), "name": vec(m.NAME_OPS),
+                   "local": vec(m.LOCAL_OPS), "free": vec(m.FREE_OPS), "compare": vec(m.COMPARE_OPS), "jump": vec(m.JUMP_OPS)},
     }
 json.dump(out, open(sys.argv[1], "w"))
